@@ -231,6 +231,21 @@ def check(ctx):
                     ctx.ob("R-DELAY", "%s interval created with the configured initial timeout (%s)" % (cq, short(e.func)),
                            init == ("attr", SELF, "_initialT"), where=where(e), function=e.func, construct="%s/interval-initial" % e.func,
                            nontrivial=False, msg="interval object created with initial=%s" % show(init))
+    # ---- R-SINGLE: one live retry timer per pending request, none after it is settled or its connection is lost -----------
+    # ("written again every time its retry timer expires, for as long as it stays unacknowledged ... nothing is repeated except on timer
+    # expiry or resume": a leaked or doubled timer repeats a packet early or after its acknowledgement)
+    from .c13 import timer_discipline
+    from ..handles import handles
+    for cls in a.protos[1:]:
+        timer_discipline(ctx, a, cls, r_cancel="R-SINGLE", r_arm="R-SINGLE")
+        hd = handles(a, cls)
+        for tr, what, ok, ev in hd.loss_obligations():
+            if "retry alarms" in what:
+                fnc = tr.entry.func
+                ctx.ob("R-SINGLE", "%s loss: %s" % (cls_short(cls.qual), what), ok, where=where(ev) if ev is not None else "%s:%d" % (fnc.file, fnc.node.lineno),
+                       function=fnc.qual, construct="%s/loss/%s" % (cls.qual, what), nontrivial=False,
+                       msg="connectionLost: %s fails on a path: the timer survives its connection and keeps re-sending (also after the acknowledgement "
+                           "that the resumed session receives)" % what)
     # ---- R-GAP: the delay produced by the interval objects is never below the initial timeout -----------
     from .gaps import IntervalBounds, passed_bounds
     imod = a.prog.modules.get("mqtt.client.interval")
